@@ -11,18 +11,18 @@ pub struct Spec {
 
 pub fn spec_for(prop: &str) -> Option<Spec> {
     Some(match prop {
-        "C04" => Spec { gen: crate::node_gen::generate, quick_runs: 30_000, thorough_runs: 5_000_000 },
-        "C05" => Spec { gen: crate::node_gen::generate, quick_runs: 70_000, thorough_runs: 8_400_000 },
-        "C10" => Spec { gen: crate::node_gen::generate, quick_runs: 30_000, thorough_runs: 5_000_000 },
-        "C11" => Spec { gen: crate::node_gen::generate, quick_runs: 30_000, thorough_runs: 6_000_000 },
-        "C12" => Spec { gen: crate::node_gen::generate, quick_runs: 30_000, thorough_runs: 5_000_000 },
-        "C08" => Spec { gen: crate::dev_gen::generate, quick_runs: 20_000, thorough_runs: 3_000_000 },
-        "C09" => Spec { gen: crate::dev_gen::generate, quick_runs: 20_000, thorough_runs: 5_000_000 },
-        "C13" => Spec { gen: crate::dev_gen::generate, quick_runs: 20_000, thorough_runs: 3_000_000 },
-        "C20" => Spec { gen: crate::dev_gen::generate, quick_runs: 20_000, thorough_runs: 4_000_000 },
-        "C02" => Spec { gen: crate::comb::generate, quick_runs: 40_000, thorough_runs: 4_000_000 },
-        "C03" => Spec { gen: gen_c03, quick_runs: 40_000, thorough_runs: 4_000_000 },
-        "C15" => Spec { gen: crate::settable::generate, quick_runs: 30_000, thorough_runs: 20_000_000 },
+        "C04" => Spec { gen: crate::node_gen::generate, quick_runs: 100_000, thorough_runs: 5_000_000 },
+        "C05" => Spec { gen: crate::node_gen::generate, quick_runs: 200_000, thorough_runs: 8_400_000 },
+        "C10" => Spec { gen: crate::node_gen::generate, quick_runs: 100_000, thorough_runs: 5_000_000 },
+        "C11" => Spec { gen: crate::node_gen::generate, quick_runs: 100_000, thorough_runs: 6_000_000 },
+        "C12" => Spec { gen: crate::node_gen::generate, quick_runs: 100_000, thorough_runs: 5_000_000 },
+        "C08" => Spec { gen: crate::dev_gen::generate, quick_runs: 60_000, thorough_runs: 3_000_000 },
+        "C09" => Spec { gen: crate::dev_gen::generate, quick_runs: 60_000, thorough_runs: 5_000_000 },
+        "C13" => Spec { gen: crate::dev_gen::generate, quick_runs: 60_000, thorough_runs: 3_000_000 },
+        "C20" => Spec { gen: crate::dev_gen::generate, quick_runs: 60_000, thorough_runs: 4_000_000 },
+        "C02" => Spec { gen: crate::comb::generate, quick_runs: 120_000, thorough_runs: 4_000_000 },
+        "C03" => Spec { gen: gen_c03, quick_runs: 120_000, thorough_runs: 4_000_000 },
+        "C15" => Spec { gen: crate::settable::generate, quick_runs: 120_000, thorough_runs: 20_000_000 },
         "C17" => Spec { gen: crate::refs::generate, quick_runs: 20_000, thorough_runs: 4_000_000 },
         "C16" => Spec { gen: gen_c16, quick_runs: 4_000, thorough_runs: 400_000 },
         "C19" | "C19ill" => Spec { gen: gen_c19, quick_runs: 300, thorough_runs: 30_000 },
